@@ -227,6 +227,18 @@ func Gen(seed uint64, c *GenCfg) *Workload {
 			w.Ops = append(w.Ops, genWrite(r, c, w, hot, ids))
 		}
 	}
+	// minimisation: keep only the listed generated operations (indexes into the
+	// full list); everything else about the run stays as the seed made it
+	lastGenOps = len(w.Ops)
+	if keepOps != nil {
+		var kept []*WOp
+		for i, o := range w.Ops {
+			if keepOps[i] {
+				kept = append(kept, o)
+			}
+		}
+		w.Ops = kept
+	}
 	w.Node.BackgroundSync = r.Pct(c.BgSyncPct)
 	w.Node.WALRotateInterval = 1 + r.Intn(5)
 	w.Node.DisableVarComp = r.Pct(15)
